@@ -262,7 +262,10 @@ def normalise(j, known):
     bodies = {b["path"]: b for b in j["bodies"]}
     done = []
     for _ in range(MAX_ROUNDS):
-        unknown = [p for p, b in bodies.items() if p not in known and "{closure" not in p and b.get("kind") in ("Fn", "AssocFn")]
+        # (a new method of a trait impl - e.g. an Iterator impl that starts overriding `fold` - is an entry point of its own,
+        # not a helper extracted from one function: it is analysed as a body, calls to it stay calls)
+        unknown = [p for p, b in bodies.items() if p not in known and "{closure" not in p and b.get("kind") in ("Fn", "AssocFn")
+                   and not ((b.get("impl") or {}).get("trait"))]
         # not recursive (directly), not too large
         unknown = [p for p in unknown if not any(bb["term"]["k"] == "call" and _callee_path(bb["term"]) == p for bb in bodies[p]["blocks"]) and len(bodies[p]["blocks"]) <= 120]
         if not unknown:
